@@ -482,9 +482,7 @@ fn run_ext_case(drv: &mut Model, rep: &mut Report, log: &mut Vec<String>, s: &Ex
     let id = format!("x-{}", s.name);
     let t0 = std::time::Instant::now();
     // round one
-    let tq = drv.queries(); let tt = std::time::Instant::now();
     let rnew = model_ext_new(drv, &id, s);
-    if std::env::var("C01_TIMING").is_ok() { eprintln!("new: {} ms, {} queries", tt.elapsed().as_millis(), drv.queries() - tq); }
     match rnew {
         Ok((mb, mr1, mstate)) => {
             rep.n_eval += 1;
@@ -510,9 +508,7 @@ fn run_ext_case(drv: &mut Model, rep: &mut Report, log: &mut Vec<String>, s: &Ex
         Ok((m, c)) => ("ok".to_string(), m.clone(), scalars(c)),
         Err(e) => (e.clone(), vec![], String::new()),
     };
-    let tq = drv.queries(); let tt = std::time::Instant::now();
     let rsend = model_ext_send(drv, s, &s.round1);
-    if std::env::var("C01_TIMING").is_ok() { eprintln!("send: {} ms, {} queries", tt.elapsed().as_millis(), drv.queries() - tq); }
     match rsend {
         Ok((v, m, c)) => {
             rep.n_eval += 1;
@@ -532,9 +528,7 @@ fn run_ext_case(drv: &mut Model, rep: &mut Report, log: &mut Vec<String>, s: &Ex
     // receiver, and the property itself
     if let Ok((msg, c)) = &s.send {
         let d = ext_real_recv(&s.state, msg);
-        let tq = drv.queries(); let tt = std::time::Instant::now();
-        let rrecv = model_recv(drv, "c01.recv", &[id.clone(), hx(msg)]);
-        if std::env::var("C01_TIMING").is_ok() { eprintln!("recv: {} ms, {} queries", tt.elapsed().as_millis(), drv.queries() - tq); }
+            let rrecv = model_recv(drv, "c01.recv", &[id.clone(), hx(msg)]);
         match rrecv {
             Ok(mv) => {
                 rep.n_eval += 1;
@@ -738,7 +732,22 @@ pub fn run(kv: &Args) -> i32 {
     let out = kv.str("out", "/verif/build/run/C01");
     std::fs::create_dir_all(&out).unwrap();
     let (n_ext, n_ot) = if kv.thorough() { (150, 60) } else { (kv.u64("n_ext", 6) as usize, kv.u64("n_ot", 3) as usize) };
-    let only = kv.get("only").map(|s| s.to_string());
+    // `only=ext<k>` / `only=ot<k>` re-runs one case; `replay=<file>` does the same for the case named in the
+    // text of an ORACLE / DISAGREE line ("variant=ext case=<k>:...").
+    let mut only = kv.get("only").map(|s| s.to_string());
+    if let Some(path) = kv.get("replay") {
+        if let Ok(txt) = std::fs::read_to_string(path) {
+            for v in ["ext", "ot"] {
+                if let Some(pos) = txt.find(&format!("variant={v} case=")) {
+                    let rest = &txt[pos + format!("variant={v} case=").len()..];
+                    let k: String = rest.chars().take_while(|c| c.is_ascii_digit()).collect();
+                    if !k.is_empty() {
+                        only = Some(format!("{v}{k}"));
+                    }
+                }
+            }
+        }
+    }
     let mut jobs: Vec<Box<dyn Fn(&mut Model, &mut Report, &mut Vec<String>) + Send + Sync>> = vec![];
     for k in 0..n_ext {
         if only.as_ref().map_or(false, |o| *o != format!("ext{k}")) {
